@@ -4,6 +4,7 @@
 mod alloc;
 mod c03;
 mod c05;
+mod c06;
 mod common;
 mod e1;
 mod refs;
@@ -77,6 +78,7 @@ const CHECKS: &[(&str, CheckFn)] = &[
     ("C02", wirechecks::c02),
     ("C03", c03::c03),
     ("C05", c05::c05),
+    ("C06", c06::c06),
     ("C19", wirechecks::c19),
 ];
 
@@ -85,4 +87,6 @@ const REPLAYERS: &[(&str, ReplayFn)] = &[
     ("e1", wirechecks::replay_e1),
     ("c03", c03::replay),
     ("c05", c05::replay),
+    ("c06", c06::replay),
+    ("c06-ae", c06::replay),
 ];
